@@ -149,7 +149,7 @@ func runC02(c *Ctx) error {
 	c.Rule = "random and template grammars without error alternatives that gocc generates without announcing conflicts; inputs = all short strings over the terminals, random sentences, prefix+terminal probes and mutants, fed by token name; verdict compared with Earley membership; non-trivial = distinct (grammar, token sequence) with at least one token"
 	c.Assumptions = []string{"M-EARLEY is a correct recogniser (cross-checked against M-LR1 on every conflict-free grammar of the run)", "token sequences are delivered through the Scanner interface by name (TokMap.Type)"}
 	jobs := genSynJobs(c.Rng, nG, "g", synFilter{actionMode: 0, flags: flagsZipAlternate,
-		family: func(i int) string { return []string{"nulllist", "", "lr1notlalr", "deadnt", "lr2", "", "firstchain", "", "nullable", ""}[i%10] }})
+		family: func(i int) string { return []string{"nulllist", "", "lr1notlalr", "deadnt", "lr2", "", "firstchain", "", "nullable", "", "", "manyterms", "", "", "", "", "", "", "", ""}[i%20] }})
 	jobs = append(jobs, corpusSynJobs(c, c.Rng, "k", synFilter{actionMode: 0, flags: flagsZipAlternate})...)
 	inRng := rand.New(rand.NewSource(c.Seed*31 + 2))
 	var refs []*parseRef
